@@ -498,6 +498,10 @@ Proof.
     destruct (Z.eqb_spec (phase b) 2) as [P2|P2]; [|exact Hsame]. specialize (I2 P2).
     rewrite <- G_ph.
     apply HG, G_sound; sc; fin.
+  - (* connected and lost before createTransport finished *)
+    destruct (Z.eqb_spec (phase b) 1) as [P1|P1]; [|exact Hsame]. specialize (I1 P1).
+    rewrite <- G_ph.
+    apply HG, G_sound; sc; fin.
   - (* SubConn.Shutdown *)
     destruct (teardown_sound b BShutdown H (or_introl eq_refl)). eauto.
   - (* ClientConn.Close *)
@@ -684,6 +688,7 @@ Proof.
   - destruct (tr b) eqn:T; [|cbn in Hn; contradiction]. rewrite H3 in *. cbn [Z.eqb Pos.eqb negb andb] in *.
     right; right. split; [auto|]. right; right. split; [astc; reflexivity|eauto].
   - destruct (Z.eqb_spec (phase b) 2) as [P|P]; [|contradiction]. left. split; [astc; reflexivity|auto].
+  - destruct (Z.eqb_spec (phase b) 1) as [P|P]; [apply I1 in P; lia|contradiction].
   - right; left. split; [apply teardown_ast|auto].
   - right; left. destruct (ccclosed b) eqn:Hc; [destruct (I10 eq_refl) as (_&_&?); lia|]. split; [|auto].
     cbn. apply teardown_ast.
@@ -735,6 +740,7 @@ Proof.
   - rewrite P0. exact H4.
   - rewrite T. exact H4.
   - rewrite P0. exact H4.
+  - rewrite P0. exact H4.
   - apply teardown_ast.
   - destruct (ccclosed b); [exact H4|]. cbn. apply teardown_ast.
   - rewrite P0. exact H4.
@@ -762,6 +768,7 @@ Proof.
     + revert H2. astc. lia.
   - destruct (tr b && negb (ast b =? 4)); [|contradiction]. revert H2. astc. lia.
   - destruct (phase b =? 2); [|contradiction]. revert H2. astc. lia.
+  - destruct (phase b =? 1); [|contradiction]. revert H2. astc. lia.
   - rewrite teardown_ast in H2. lia.
   - destruct (ccclosed b); [contradiction|]. cbn in H2. rewrite teardown_ast in H2. lia.
   - destruct (phase b =? 2); [|contradiction]. revert H2. astc. lia.
@@ -1042,6 +1049,19 @@ Proof.
   pose proof Hi as (I1&I2&I3&I4&I5&I6&I7&I8&I9&I10&I11&I12).
   pose proof Hi1 as (J1&J2&J3&J4&J5&J6&J7&J8&J9&J10&J11&J12).
   cbn [forallb fst snd]. rewrite andb_true_r.
+  (* no READY for a connection that was lost before createTransport finished *)
+  assert (H6 : match decB op with BDialLost => negb (mem 2 d) | _ => true end = true).
+  { destruct (decB op) eqn:Eo; try reflexivity.
+    unfold d. destruct (lbopen b0); [|reflexivity].
+    assert (He : e = [] \/ e = [0]).
+    { unfold b0 in F1. try rewrite Eo in F1. cbn [bstep] in F1.
+      destruct (phase b =? 1).
+      - cbn [set_phase hist] in F1. unfold emit in F1. destruct (ast b =? 0); cbn [hist] in F1.
+        + left. apply (app_inv_head (hist b)). rewrite app_nil_r. symmetry. exact F1.
+        + right. apply (app_inv_head (hist b)). symmetry. exact F1.
+      - left. apply (app_inv_head (hist b)). rewrite app_nil_r. symmetry. exact F1. }
+    destruct He as [-> | ->]; reflexivity. }
+  rewrite H6, andb_true_r.
   (* when something is delivered, the wrapper was open and the last delivered state is ac.state *)
   assert (Hprev : lbopen b0 = true -> last (dl b) 0 = ast b).
   { intro Hob. destruct (F3 Hob) as [_ Hb]. rewrite I9, <- (I6 Hb), Hq, app_nil_r. reflexivity. }
@@ -1116,4 +1136,22 @@ Theorem health_managed_transitions_note : exists cfg ops obs, cfg_wf cfg = true 
 Proof.
   exists [1; 1], [[1]; [2; 1]; [10; 0]; [10; 1]], [[1;1;1;1;0]; [0;1;1;1]; [1;3;3;3;1]; [1;2;2;2;1]].
   vm_compute. repeat split; reflexivity.
+Qed.
+
+(* "READY only with a live transport": a connection that is established and lost again before
+   createTransport has installed it takes a CONNECTING sub-channel to IDLE - no transport, no
+   connect goroutine left, READY is not reported - and is a no-op in every other state *)
+Theorem dial_lost_never_ready : forall b, invB b ->
+  let b' := bstep b BDialLost in
+  tr b' = tr b /\ ast b' <> 2 \/ b' = b.
+Proof.
+  intros b H. cbn [bstep]. destruct (Z.eqb_spec (phase b) 1) as [P|P]; [|right; reflexivity].
+  left. split; [unfold set_phase, emit; destruct (ast b =? 0); reflexivity|].
+  cbn [set_phase ast]. rewrite emit_ast. lia.
+Qed.
+Theorem dial_lost_goes_idle : forall b, phase b = 1 ->
+  ast (bstep b BDialLost) = 0 /\ phase (bstep b BDialLost) = 0 /\ tr (bstep b BDialLost) = tr b.
+Proof.
+  intros b P. cbn [bstep]. rewrite P. cbn [Z.eqb Pos.eqb]. cbn [set_phase ast phase tr]. rewrite emit_ast.
+  split; [reflexivity|]. split; [reflexivity|]. unfold emit. destruct (ast b =? 0); reflexivity.
 Qed.
